@@ -2,6 +2,7 @@ import NdnProofs.Props.C11
 #print axioms Ndn.C11.matchIter_eq_matchTree
 #print axioms Ndn.C11.matchIter_no_exception
 #print axioms Ndn.C11.matchTree_sound
+#print axioms Ndn.C11.matchIter_sound
 #print axioms Ndn.C11.matchTree_iff_Sem
 #print axioms Ndn.C11.compile_correct_partial
 #print axioms Ndn.C11.matchNames_spec
